@@ -57,6 +57,10 @@ type tMapEach struct { // map built with one entry per element of Over
 	Elem     *tSym
 	Key, Val tv
 }
+type tMapUnion struct { // a map filled by several loops, one part per loop
+	T     types.Type
+	Parts []*tMapEach
+}
 type tMapLit struct {
 	T          types.Type
 	Keys, Vals []tv
@@ -125,6 +129,13 @@ func (t *tEach) ts() string {
 }
 func (t *tMapEach) ts() string {
 	return "mapeach(" + t.Elem.Name + " in " + t.Over.ts() + " => " + t.Key.ts() + ": " + t.Val.ts() + ")"
+}
+func (t *tMapUnion) ts() string {
+	var parts []string
+	for _, p := range t.Parts {
+		parts = append(parts, p.ts())
+	}
+	return "union(" + strings.Join(parts, " + ") + ")"
 }
 func (t *tMapLit) ts() string {
 	var parts []string
@@ -213,6 +224,7 @@ type loopCollector struct {
 	appends  map[*tcell][]tv  // outer slice tcell -> appended terms (per iteration)
 	idxSets  map[*tcell]tv    // outer slice tcell -> value stored at [loop index]
 	mapSets  map[*tcell][2]tv // outer map tcell -> key, val
+	prior    map[*tcell][]*tMapEach // maps already filled by earlier loops: this loop adds a part
 	sorted   bool
 	distinct bool // the visited keys are pairwise distinct (they come from a map)
 	outer    *sevEnv
@@ -856,7 +868,7 @@ func (s *sev) isNil(v tv) (isNil, known bool) {
 	switch x := v.(type) {
 	case tNil:
 		return true, true
-	case *tPtr, *tObj, *tEach, *tMapEach, *tMapLit, *tEnc, *tFn, *tKeys, *tErr, *tAcc:
+	case *tPtr, *tObj, *tEach, *tMapEach, *tMapLit, *tEnc, *tFn, *tKeys, *tErr, *tAcc, *tMapUnion:
 		return false, true
 	case *tSliceLit:
 		return false, true
@@ -950,6 +962,13 @@ func (s *sev) evalBinary(fr *sevFrame, e *ast.BinaryExpr) tv {
 		cy, oky := y.(tConst)
 		if okx && oky {
 			return mk(constant.Compare(cx.V, token.EQL, cy.V) != neg)
+		}
+		// len(x) == 0 / != 0 on a symbolic collection: split on emptiness
+		if l, ok := x.(*tLen); ok && oky {
+			if n, ok := constant.Int64Val(cy.V); ok && n == 0 {
+				c := s.choose("empty:"+emptinessSource(l.X).ts(), []string{"empty", "nonempty"})
+				return mk((c == "empty") != neg)
+			}
 		}
 		// symbolic == constant: split
 		if sx, ok := x.(*tSym); ok && oky {
@@ -1638,6 +1657,21 @@ func (s *sev) indexStore(fr *sevFrame, base *tcell, idx, v tv) {
 					lc.mapSets[base] = [2]tv{idx, v}
 					return
 				}
+			case *tMapEach, *tMapUnion:
+				if _, dup := lc.mapSets[base]; dup {
+					s.abort("two stores to the same map in one iteration")
+				}
+				if lc.prior == nil {
+					lc.prior = map[*tcell][]*tMapEach{}
+				}
+				switch pv := base.v.(type) {
+				case *tMapEach:
+					lc.prior[base] = []*tMapEach{pv}
+				case *tMapUnion:
+					lc.prior[base] = pv.Parts
+				}
+				lc.mapSets[base] = [2]tv{idx, v}
+				return
 			case *tMapLit:
 				if len(b.Keys) != 0 {
 					s.abort("map store in loop into a non-empty map")
@@ -2111,8 +2145,20 @@ func elemTypeOf(t types.Type) types.Type {
 }
 
 func (s *sev) execRange(fr *sevFrame, x *ast.RangeStmt) ctl {
-	info := fr.pk.TypesInfo
 	over := s.deref(s.eval(fr, x.X))
+	if u, ok := over.(*tMapUnion); ok {
+		for _, part := range u.Parts {
+			if c := s.scoped(fr, func() ctl { return s.execRangeOn(fr, x, part) }); c != ctlNone {
+				return c
+			}
+		}
+		return ctlNone
+	}
+	return s.execRangeOn(fr, x, over)
+}
+
+func (s *sev) execRangeOn(fr *sevFrame, x *ast.RangeStmt, over tv) ctl {
+	info := fr.pk.TypesInfo
 	overT := info.Types[x.X].Type
 	bindKV := func(k, v tv) {
 		if x.Key != nil {
@@ -2335,7 +2381,12 @@ func (s *sev) execRange(fr *sevFrame, x *ast.RangeStmt) ctl {
 		cl.v = &tEach{Over: lc.over, Elem: lc.elem, Body: v, Sorted: lc.sorted}
 	}
 	for cl, kv := range lc.mapSets {
-		cl.v = &tMapEach{Over: lc.over, Elem: lc.elem, Key: kv[0], Val: kv[1]}
+		me := &tMapEach{Over: lc.over, Elem: lc.elem, Key: kv[0], Val: kv[1]}
+		if pr, ok := lc.prior[cl]; ok {
+			cl.v = &tMapUnion{Parts: append(append([]*tMapEach{}, pr...), me)}
+		} else {
+			cl.v = me
+		}
 	}
 	return ctlNone
 }
@@ -2354,6 +2405,11 @@ type sevOutcome struct {
 
 // runForks evaluates body under every combination of fork decisions it asks for (bounded).
 func runForks(mk func() *sev, body func(s *sev) (tv, any)) []sevOutcome {
+	return runForksWith(nil, mk, body)
+}
+
+// runForksWith starts from preset decisions (hypotheses of the row family being extracted).
+func runForksWith(preset map[string]string, mk func() *sev, body func(s *sev) (tv, any)) []sevOutcome {
 	var out []sevOutcome
 	var rec func(assume map[string]string, order []string)
 	rec = func(assume map[string]string, order []string) {
@@ -2396,7 +2452,14 @@ func runForks(mk func() *sev, body func(s *sev) (tv, any)) []sevOutcome {
 		}
 		out = append(out, sevOutcome{Assume: assume, Refine: s.refine, Notes: s.notes, Abort: abortWhy, Result: res, State: state})
 	}
-	rec(map[string]string{}, nil)
+	start := map[string]string{}
+	for k, v := range preset {
+		start[k] = v
+	}
+	rec(start, nil)
+	if len(out) > 200 {
+		out = append(out, sevOutcome{Assume: map[string]string{}, Abort: "more than 200 rows: the extraction was cut off (split the hypotheses)"})
+	}
 	return out
 }
 
@@ -2482,6 +2545,21 @@ func (s *sev) identity(out tv, sym *tSym, allowSorted func(path string) bool) []
 			}
 			rec(x.Val, x.Elem, path+"[*]", d+1)
 			return
+		case *tMapUnion:
+			// exactly one part may come from the wanted map; the others must be over collections assumed empty
+			matched := 0
+			for _, part := range x.Parts {
+				if sameTerm(part.Over, want) {
+					matched++
+					rec(part, want, path, d+1)
+				} else if s.assume["empty:"+emptinessSource(part.Over).ts()] != "empty" {
+					diffs = append(diffs, fmt.Sprintf("%s: also receives entries built from %s", path, part.Over.ts()))
+				}
+			}
+			if matched == 0 && s.assume["empty:"+want.Name] != "empty" {
+				diffs = append(diffs, fmt.Sprintf("%s: no entries come from %s", path, want.Name))
+			}
+			return
 		case *tMapLit:
 			if len(x.Keys) == 0 && s.assume["empty:"+want.Name] == "empty" {
 				return
@@ -2494,6 +2572,9 @@ func (s *sev) identity(out tv, sym *tSym, allowSorted func(path string) bool) []
 			}
 			if s.assume["empty:"+want.Name] == "empty" {
 				return // the row was extracted for an empty collection; nil and empty are the same content
+			}
+			if s.assume["nil:"+want.Name] == "nil" {
+				return // the row was extracted for an absent (nil) value
 			}
 			diffs = append(diffs, fmt.Sprintf("%s: is nil/zero, expected %s (lost)", path, want.Name))
 			return
